@@ -42,6 +42,8 @@ theorem fieldSpans_valid (types : List Elem) (fs : List FieldDef) :
           · rename_i szlv hszlv
             split at h
             · simp at h
+            split at h
+            · simp at h
             · rename_i r hr
               obtain ⟨sz, lv⟩ := szlv
               obtain ⟨total', sp'⟩ := r
@@ -96,6 +98,10 @@ theorem fieldSpans_leaves (types : List Elem) (fs : List FieldDef) :
           · simp only [hp, if_true] at h ⊢
             split at h
             · simp at h
+            rename_i hov
+            rw [if_neg hov]
+            split at h
+            · simp at h
             · rename_i r hr
               simp only [Except.ok.injEq, Prod.mk.injEq] at h
               obtain ⟨rfl, rfl⟩ := h
@@ -113,6 +119,10 @@ theorem fieldSpans_leaves (types : List Elem) (fs : List FieldDef) :
                 simp only [Bool.false_eq_true, if_false] at h ⊢
                 split at h
                 · simp at h
+                rename_i hov
+                rw [if_neg hov]
+                split at h
+                · simp at h
                 · rename_i r hr
                   simp only [Except.ok.injEq, Prod.mk.injEq] at h
                   obtain ⟨rfl, rfl⟩ := h
@@ -125,6 +135,10 @@ theorem fieldSpans_leaves (types : List Elem) (fs : List FieldDef) :
           · simp only [ho, if_false] at h ⊢
             by_cases hp : isPrimitive f.type = true
             · simp only [hp, if_true] at h ⊢
+              split at h
+              · simp at h
+              rename_i hov
+              rw [if_neg hov]
               split at h
               · simp at h
               · rename_i r hr
@@ -142,6 +156,10 @@ theorem fieldSpans_leaves (types : List Elem) (fs : List FieldDef) :
                 | ok szlv =>
                   simp only [he] at h ⊢
                   simp only [Bool.false_eq_true, if_false] at h ⊢
+                  split at h
+                  · simp at h
+                  rename_i hov
+                  rw [if_neg hov]
                   split at h
                   · simp at h
                   · rename_i r hr
@@ -246,6 +264,8 @@ theorem fieldSpans_total (types : List Elem) (fs : List FieldDef) :
         · split at h
           · simp at h
           · split at h
+            · simp at h
+            split at h
             · simp at h
             · rename_i r hr
               simp only [Except.ok.injEq, Prod.mk.injEq] at h
